@@ -272,15 +272,15 @@ Qed.
 (* THE TEXT dump --chrome WRITES IS A JSON DOCUMENT - for every list of tasks (also none), every list of function
    events (also none: all records filtered out), every function name, argument string, task name and stored
    command line; the version and the date must not contain a quote, a backslash or a control byte *)
-Theorem chrome_doc_valid : forall comms evts version date cmdline,
-  (forall tc, In tc comms -> fst tc < BIG) -> Forall evt_bounded evts ->
+Theorem texts_doc_valid : forall comms evs version date cmdline,
+  (forall tc, In tc comms -> fst tc < BIG) -> Forall item_ok evs ->
   forallb plain2 version = true -> forallb plain2 date = true ->
-  json_ok (chrome_doc true comms evts version date cmdline) = true.
+  json_ok (chrome_doc_texts true comms evs version date cmdline) = true.
 Proof.
-  intros comms evts version date cmdline Hc He Hv Hd. unfold json_ok, chrome_doc.
+  intros comms evs version date cmdline Hc He Hv Hd. unfold json_ok, chrome_doc_texts.
   rewrite (jrun_app_some _ _ _ _ fr_head).
-  set (items := flat_map (fun tc => [meta_text true (fst tc) (snd tc); meta_text false (fst tc) (snd tc)]) comms ++ map evt_text evts).
-  assert (Hi : Forall item_ok items) by (apply Forall_app; split; [apply metas_ok, Hc|apply evs_ok, He]).
+  set (items := flat_map (fun tc => [meta_text true (fst tc) (snd tc); meta_text false (fst tc) (snd tc)]) comms ++ evs).
+  assert (Hi : Forall item_ok items) by (apply Forall_app; split; [apply metas_ok, Hc|exact He]).
   assert (S1 : forall rest, jrun (M_val true, ARR) (join_sep items ++ s_foot1 ++ rest) = jrun (M_str false S_body, MET) rest).
   { intros rest. destruct items as [|x r] eqn:Ei.
     - simpl join_sep. simpl app. apply (jrun_app_some _ _ _ _ fr_foot1_empty).
@@ -297,6 +297,56 @@ Proof.
     rewrite (jrun_app_some _ _ _ _ fr_quote). simpl app. rewrite fr_foot4. reflexivity.
   - simpl app. rewrite fr_foot4. reflexivity.
 Qed.
+
+Theorem chrome_doc_valid : forall comms evts version date cmdline,
+  (forall tc, In tc comms -> fst tc < BIG) -> Forall evt_bounded evts ->
+  forallb plain2 version = true -> forallb plain2 date = true ->
+  json_ok (chrome_doc true comms evts version date cmdline) = true.
+Proof. intros. unfold chrome_doc. apply texts_doc_valid; try assumption. apply evs_ok. assumption. Qed.
+
+(* ---- renamed tasks: the metadata events in the middle of the list ---- *)
+Lemma fr_pname0 : forall nz (p : bool), numz nz ->
+  jrun (M_num nz, OBJ) (if p then s_pname0 else s_tname0) = Some (M_str false S_body, true :: OBJ).
+Proof. intros nz [|] [-> | ->]; reflexivity. Qed.
+Lemma comm_obj_ok : forall (p : bool) tid esc b, tid < BIG -> lex_run S_body esc = Some S_body ->
+  jrun (M_val b, ARR) (s_m1 ++ dec tid ++ (if p then s_pname0 else s_tname0) ++ esc ++ [34; 125; 125]) = Some (M_after, ARR).
+Proof.
+  intros p tid esc b Ht He.
+  rewrite (jrun_app_some _ _ _ _ (fr_m1 b)).
+  destruct (jrun_dec tid false OBJ Ht) as [nz [Hz E]]. rewrite (jrun_app_some _ _ _ _ E).
+  rewrite (jrun_app_some _ _ _ _ (fr_pname0 nz p Hz)).
+  rewrite jrun_body_app by exact He. apply fr_end2.
+Qed.
+Lemma comm_ok : forall pid tid comm, pid < BIG -> tid < BIG -> item_ok (comm_text pid tid comm).
+Proof.
+  intros pid tid comm Hp Ht b. unfold comm_text.
+  pose proof (escape_bounded_body (cstr comm) 80) as He.
+  destruct (pid =? tid).
+  - rewrite (jrun_app_some _ _ _ _ (comm_obj_ok true tid _ b Ht He)).
+    assert (S : jrun (M_after, ARR) sep = Some (M_val false, ARR)) by reflexivity.
+    rewrite (jrun_app_some _ _ _ _ S). apply (comm_obj_ok false tid _ false Ht He).
+  - rewrite (jrun_app_some _ _ _ _ (fr_m1 b)).
+    destruct (jrun_dec pid false OBJ Hp) as [nz [Hz E]]. rewrite (jrun_app_some _ _ _ _ E).
+    rewrite (jrun_app_some _ _ _ _ (fr_tid nz Hz)).
+    destruct (jrun_dec tid false OBJ Ht) as [nz1 [Hz1 E1]]. rewrite (jrun_app_some _ _ _ _ E1).
+    rewrite (jrun_app_some _ _ _ _ (fr_pname nz1 false Hz1)).
+    rewrite jrun_body_app by (apply digits_body, dec_all_digits, Ht).
+    rewrite app_assoc. rewrite jrun_body_app; [apply fr_end2|].
+    rewrite lex_run_app. change (lex_run S_body [93; 32]) with (Some S_body). exact He.
+Qed.
+Definition item_bounded (it : ditem) : Prop :=
+  match it with DEvt e => evt_bounded e | DComm pid tid _ => pid < BIG /\ tid < BIG end.
+Lemma items_ok : forall items, Forall item_bounded items -> Forall item_ok (map item_text items).
+Proof.
+  intros items H. induction H as [|it r Hi Hr IH]; [constructor|]. simpl. constructor; [|exact IH].
+  destruct it as [e|pid tid comm]; simpl in *; [intros b; apply evt_ok, Hi|apply comm_ok; tauto].
+Qed.
+(* the document with renamed tasks among the events *)
+Theorem chrome_doc_items_valid : forall comms items version date cmdline,
+  (forall tc, In tc comms -> fst tc < BIG) -> Forall item_bounded items ->
+  forallb plain2 version = true -> forallb plain2 date = true ->
+  json_ok (chrome_doc_items true comms items version date cmdline) = true.
+Proof. intros. unfold chrome_doc_items. apply texts_doc_valid; try assumption. apply items_ok. assumption. Qed.
 
 (* the code as it was before 44f79e4: with tasks but no function event the array ends with a comma *)
 Theorem chrome_doc_legacy_refuted :
@@ -359,7 +409,7 @@ Theorem chrome_evts_bounded : forall tasks s args,
   (forall r, In r s -> fst r < BIG /\ ev_time (snd r) < BIG) ->
   Forall evt_bounded (chrome_evts tasks s args).
 Proof.
-  intros tasks s args Ht Hs. unfold chrome_evts. apply Forall_app. split.
+  intros tasks s args Ht Hs. unfold chrome_evts, chrome_rec_evts, chrome_close_evts. apply Forall_app. split.
   - apply Forall_forall. intros e He. apply in_map_iff in He. destruct He as [[[tid ev] a] [<- Hin]].
     apply in_combine_l in Hin. destruct (Hs _ Hin) as [H1 H2]. simpl in H1, H2.
     destruct ev as [x t|x t]; apply mk_cevt_bounded; try assumption; intros tp Htp; apply (Ht tp Htp).
@@ -402,7 +452,7 @@ Proof.
 Qed.
 Theorem chrome_evts_decoded : forall tasks s args, map cev_of (chrome_evts tasks s args) = chrome_events tasks s.
 Proof.
-  intros tasks s args. unfold chrome_evts, chrome_events. rewrite map_app. f_equal.
+  intros tasks s args. unfold chrome_evts, chrome_rec_evts, chrome_close_evts, chrome_events. rewrite map_app. f_equal.
   - rewrite map_map.
     transitivity (map (chrome_of_record tasks) (map fst (combine s (args ++ repeat None (length s - length args))))).
     + rewrite map_map. apply map_ext. intros [[tid e] a]. destruct e; reflexivity.
@@ -421,3 +471,51 @@ Proof.
     with (if room <=? 5 then [] else json_escape_char c ++ escape_bounded (room - N.of_nat (length (json_escape_char c))) s).
   assert (E : room <=? 5 = false) by (apply N.leb_gt; lia). rewrite E. f_equal. apply IH. lia.
 Qed.
+
+(* ---- the items of a record stream with renames ---- *)
+Lemma insert_comm_forall : forall (P : ditem -> Prop) tm it l, Forall P l -> P it -> Forall P (insert_comm tm it l).
+Proof.
+  intros P tm it l H Hi. induction H as [|x r Hx Hr IH]; simpl; [repeat constructor; exact Hi|].
+  destruct x as [e|pid tid c].
+  - destruct (tm <? e_time e); repeat constructor; assumption.
+  - constructor; assumption.
+Qed.
+Theorem chrome_items_bounded : forall tasks s args renames,
+  (forall tp, In tp tasks -> fst tp < BIG /\ snd tp < BIG) ->
+  (forall r, In r s -> fst r < BIG /\ ev_time (snd r) < BIG) ->
+  (forall r, In r renames -> snd (fst r) < BIG) ->
+  Forall item_bounded (chrome_items tasks s args renames).
+Proof.
+  intros tasks s args renames Ht Hs Hr.
+  pose proof (chrome_evts_bounded tasks s args Ht Hs) as B. unfold chrome_evts in B. apply Forall_app in B. destruct B as [B1 B2].
+  unfold chrome_items. apply Forall_app. split.
+  - assert (G : forall l, Forall item_bounded l ->
+              Forall item_bounded (fold_left (fun l r => let '(tm, tid, nm) := r in
+                 let pid := match find (fun p => fst p =? tid) tasks with Some (_, p) => p | None => tid end in
+                 insert_comm tm (DComm pid tid nm) l) renames l)).
+    { induction renames as [|[[tm tid] nm] rs IH]; intros l Hl; [exact Hl|]. simpl. apply IH.
+      - intros r Hin. apply Hr. right. exact Hin.
+      - apply insert_comm_forall; [exact Hl|]. simpl.
+        assert (Htid : tid < BIG) by (apply (Hr (tm, tid, nm)); left; reflexivity).
+        split; [|exact Htid].
+        destruct (find (fun p => fst p =? tid) tasks) as [[k p]|] eqn:F; [|exact Htid].
+        apply find_some in F. destruct F as [F _]. apply (Ht _ F). }
+    apply G. apply Forall_forall. intros it Hit. apply in_map_iff in Hit. destruct Hit as [e [<- He]].
+    rewrite Forall_forall in B1. apply (B1 e He).
+  - apply Forall_forall. intros it Hit. apply in_map_iff in Hit. destruct Hit as [e [<- He]].
+    rewrite Forall_forall in B2. apply (B2 e He).
+Qed.
+Theorem chrome_stream_items_valid : forall tasks comms s args renames version date cmdline,
+  (forall tp, In tp tasks -> fst tp < BIG /\ snd tp < BIG) -> (forall tc, In tc comms -> fst tc < BIG) ->
+  (forall r, In r s -> fst r < BIG /\ ev_time (snd r) < BIG) -> (forall r, In r renames -> snd (fst r) < BIG) ->
+  forallb plain2 version = true -> forallb plain2 date = true ->
+  json_ok (chrome_doc_items true comms (chrome_items tasks s args renames) version date cmdline) = true.
+Proof. intros. apply chrome_doc_items_valid; try assumption. apply chrome_items_bounded; assumption. Qed.
+
+(* the code as found (before 30262fc) printed the new task name raw *)
+Definition comm_text_legacy (tid : N) (comm : list N) : list N :=
+  s_m1 ++ dec tid ++ s_pname0 ++ comm ++ [34; 125; 125].
+Theorem chrome_comm_legacy_refuted :
+  json_ok (chrome_doc_texts true [(100, [112])] [comm_text_legacy 100 [97; 34; 98]] [118] [100] None) = false
+  /\ json_ok (chrome_doc_items true [(100, [112])] [DComm 100 100 [97; 34; 98]] [118] [100] None) = true.
+Proof. vm_compute. split; reflexivity. Qed.
